@@ -20,6 +20,10 @@ type FuncResult struct {
 
 func (e *Engine) verifyFunc(fn *ssa.Function, ct *Contract, slice map[string]bool, safety bool, extra func(vc *VC, te *TEnv, final *State, results []Val, retReach string)) *VC {
 	vc := e.newVC(shortFn(fn), slice, safety)
+	if e.exemptNext {
+		vc.exemptC03 = 1
+		e.exemptNext = false
+	}
 	vc.declare("alloc~0", sortInt)
 	vc.assume("true", "(>= alloc~0 0)")
 	vc.entry = &State{heaps: map[string]string{}, ghosts: map[string]string{}, alloc: "alloc~0"}
@@ -79,6 +83,7 @@ func (e *Engine) verifyFunc(fn *ssa.Function, ct *Contract, slice map[string]boo
 			// loop annotations come from the function's own contract
 			merged := *ct
 			merged.Loops = own.Loops
+			merged.Swallows = append(append([]string{}, ct.Swallows...), own.Swallows...)
 			ct = &merged
 		}
 	}
